@@ -43,6 +43,8 @@ def gen_pipeline(r, k, profile, maxst, fresh):
             kinds.append("builtin")
         elif profile != "plain" and kd == 1:
             kinds.append("notfound")
+        elif profile in ("redir", "mixed", "long") and kd == 2 and n > 1:
+            kinds.append("source")          # a builtin stage that itself starts a program (from the forked stage's table)
         else:
             kinds.append("helper")
         m = r.below(14) if profile != "plain" else 99
@@ -73,6 +75,8 @@ def gen_pipeline(r, k, profile, maxst, fresh):
         if kinds[i] == "builtin":
             # (minfd inside a pipeline prints a number that depends on the forked child's private descriptors: single commands only)
             words = [r.choice(["minfd", "minfd", "alias", "alias a b c"] if n == 1 else ["alias"])] if can_write else ["alias q7=v"]   # (the usage error is printed in two write calls: single commands only)
+        elif kinds[i] == "source":
+            words = ["source", "s%dx%d.sh" % (k, i)]
         elif kinds[i] == "notfound":
             words = ["nosuchprog", "x"]
         else:
@@ -89,6 +93,9 @@ def gen_pipeline(r, k, profile, maxst, fresh):
                 ops.append("x%d" % r.choice([0, 1, 2, 3, 7, 42, 126, 127, 128, 200, 255]))
             words = ["fdstage", tag] + ops
         rd = rds[i]
+        if kinds[i] == "source":
+            rd = []                          # (redirections on `source` itself are not this stream's subject)
+            sin[i] = None
         if not can_write:
             rd = [w for w in rd if w != "2>&1"]
         if quiet and not (fails[i] or kinds[i] == "notfound"):
@@ -229,8 +236,12 @@ def render_script(items):
 
 def make_case(items, limit=0, stream="fdsess", meta=None, mode="script"):
     enc = ";".join(("P:" + hx(it[1])) if it[0] == "P" else ("S:%s:%s" % (hx(it[1]), hx(it[2]))) for it in items)
-    files = ";".join(hx(n) + "=" + ",".join(hx(l) for l in ls) for n, ls in sorted(PRE_FILES.items()))
-    m = {"gen": "q", "script": render_script(items), "mode": mode}
+    script = render_script(items)
+    allfiles = dict(PRE_FILES)
+    for tag in re.findall(r"source (s\d+x\d+)\.sh", script):
+        allfiles[tag + ".sh"] = ["fdstage " + tag]          # a sourced file holds one line: the helper named after it
+    files = ";".join(hx(n) + "=" + ",".join(hx(l) for l in ls) for n, ls in sorted(allfiles.items()))
+    m = {"gen": "q", "script": script, "mode": mode, "files": allfiles}
     if meta:
         m.update(meta)
     return Case(stream, [str(limit), enc, ",".join(hx(x) for x in UNWRITABLE), ",".join(hx(x) for x in UNREADABLE),
@@ -238,6 +249,10 @@ def make_case(items, limit=0, stream="fdsess", meta=None, mode="script"):
 
 
 CORPUS = [
+    # `source` as a pipeline stage / as the whole line: the program it starts begins with 0, 1, 2 only
+    ([("P", "source s0x0.sh | fdstage a0x1 R | fdstage a0x2 R"), ("P", "fdstage q0 P S$?"),
+      ("P", "fdstage a1x0 | source s1x1.sh | fdstage a1x2 R | fdstage a1x3 R"), ("P", "fdstage q1 P S$?"),
+      ("P", "source s2x0.sh"), ("P", "fdstage q2 P S$?"), ("P", "fdstage a3x0 | source s3x1.sh"), ("P", "fdstage q3 P S$?")], "script"),
     # (items, mode): witnesses of repaired defects and of known findings; they run first in every check
     ([("P", "fdstage a0x0 2>&1"), ("P", "fdstage q0 P S$?"), ("P", "fdstage a1x0 1>&2"), ("P", "fdstage q1 P S$?")], "script"),
     ([("S", "fdstage o0 S", "minfd"), ("P", "minfd"), ("P", "fdstage q0 P S$?")], "script"),
@@ -317,7 +332,7 @@ def run_session(cicada, case, idx, timeout=60):
         cwd = sb.cwd
         obs = os.path.join(sb.dir, "obs")
         os.makedirs(obs)
-        for n, ls in PRE_FILES.items():
+        for n, ls in case.meta.get("files", PRE_FILES).items():
             open(os.path.join(cwd, n), "w").write("".join(l + "\n" for l in ls))
         os.makedirs(os.path.join(cwd, "adir"))
         fin = os.path.join(sb.dir, "in.txt"); fout = os.path.join(sb.dir, "out.txt"); ferr = os.path.join(sb.dir, "err.txt")
